@@ -361,6 +361,8 @@ fn mac_check(acc: &mut Acc, pc: u64, target: u64) {
     }
     if run.written & !vkit::a64::SCRATCH_OK != 0 {
         acc.viol("C15", "aarch64-macos:writes-register", format!("sequence writes registers outside x9-x17: mask {:#x}", run.written & !vkit::a64::SCRATCH_OK));
+        // the fake would not receive the argument / indirect-result / callee-saved registers the caller supplied (C13)
+        acc.viol("C13", "aarch64-macos:writes-register", format!("the macOS AArch64 entry sequence [{}] writes an argument / indirect-result / callee-saved register: mask {:#x}", run.trace.join("; "), run.written & !vkit::a64::SCRATCH_OK));
     }
     if acc.words.len() < 50_000 {
         for w in &words {
